@@ -37,6 +37,10 @@ CHECKS = {
     technique='exhaustive exploration, with SMT-enumerated session variables (missing-input subset, cut index k, interruption kind), of the real habutax.solve(args) with prompting and write-back over real temp files; base inputs from the whole-return model',
     text='Sessions of the real CLI solve path (real configparser, real temp files, scripted input()) are enumerated exhaustively: every non-empty subset of 4 (quick) / 6 candidate inputs missing from the file, every prompt index k at which the session is cut, by KeyboardInterrupt, EOFError, or by reaching the unsupported Schedule 2. Afterwards the file must parse, hold every prior value and every answer given before the cut, and a re-run must not ask for those again. The base input assignment is a solved return found by z3 on the whole-return model. (Q1: finite-domain exploration; each session is a concrete run.)',
     design='4 C20', note=TB + '; a deterministically failing line after a prompt is not available in the shipped forms (covered through the unsupported-form abort only)'),
+ 'C19': dict(
+    technique='bounded symbolic execution of the real PDFFiller._create_fdf on a symbolic printable-ASCII value followed by a symbolic reference decoder of the PDF literal-string syntax (z3: decoded == value and the dictionary closes, on every path); the real PDFFiller.fill with stubbed pdftk on SMT-chosen subsets of the sections of a solved solution',
+    text='The real _create_fdf writes a field whose value is a symbolic printable-ASCII string (<= 3 quick / 4 thorough characters) into a captured file; a reference decoder of PDF literal strings (balanced parentheses, backslash escapes, octal) runs symbolically over the captured text and z3 must show decode(fdf(v)) == v and that the entry closes right after it, for every such string. The real fill() then runs with a recording pdftk stub on every subset (SMT-enumerated) of the sections of a real solved solution per year: the fill_form commands must name exactly the fileable forms, once each, in (jurisdiction, sequence) order, never an input-only form or worksheet. Witness values are replayed through the real _create_fdf.',
+    design='4 C19', note=TB + '; the reference decoder (PDF 32000-1 7.3.4.2) is the oracle; values longer than the bound and non-ASCII text outside'),
  'C07': dict(
     technique='bounded symbolic execution of the real figure_tax on a symbolic real income (proxy objects through the real bytecode, z3 decides path feasibility) + per-path SMT equivalence with the statutory rate schedule',
     text='Every path of the real figure_tax/figure_tax_table/figure_tax_worksheet (one per table row and worksheet row, for each year and each of the 5 statuses) is enumerated by the symbolic executor; for each, z3 proves value(x) == schedule(x) for every real x on that path (unsat of the negation), that no feasible x falls through, and monotonicity across adjacent pieces. Holds for all real x in [0,1e12]; float rounding of the worksheet kernel is bounded by an NRA lemma under the IEEE standard model. Witnesses are replayed on the uninstrumented code before being reported.',
